@@ -43,7 +43,114 @@ func init() {
 		e.c13StmtDef(s, res+"subset.go", "subset", "subsetStmts")
 		e.c13StmtDef(s, kube, "diff", "kubeDiffStmts")
 		e.c13StmtDef(s, kube, "EventHandler.notify", "kubeNotifyStmts")
+		// round 4: publisher, glue functions, constructors / options
+		const pub = "core/discov/publisher.go"
+		const cli = "core/discov/clients.go"
+		e.c13StmtDef(s, pub, "Publisher.register", "registerStmts")
+		e.c13StmtDef(s, pub, "Publisher.revoke", "revokeStmts")
+		e.c13StmtDef(s, pub, "Publisher.doRegister", "doRegisterStmts")
+		e.c13StmtDef(s, pub, "WithId", "withIdStmts")
+		e.shapeDef(s, pub, "Publisher.KeepAlive", "keepAliveShape")
+		c13QuietShape(e, s, pub, "Publisher.keepAliveAsync", "keepAliveAsyncShape")
+		c13QuietShape(e, s, pub, "Publisher.doKeepAlive", "doKeepAliveShape")
+		e.c13StmtDef(s, cli, "makeEtcdKey", "makeEtcdKeyStmts")
+		e.c13StmtDef(s, reg, "makeKeyPrefix", "makeKeyPrefixStmts")
+		e.c13StmtDef(s, reg, "cluster.getCurrent", "getCurrentStmts")
+		c13QuietShape(e, s, reg, "cluster.load", "loadShape")
+		e.shapeDef(s, reg, "cluster.monitor", "clusterMonitorShape")
+		e.c13StmtDef(s, sub, "container.notifyChange", "notifyChangeStmts")
+		e.c13StmtDef(s, sub, "container.removeKey", "removeKeyStmts")
+		e.c13StmtDef(s, sub, "container.addListener", "addListenerStmts")
+		e.c13StmtDef(s, sub, "newContainer", "newContainerStmts")
+		e.c13StmtDef(s, sub, "NewSubscriber", "newSubscriberStmts")
+		e.c13StmtDef(s, sub, "Exclusive", "exclusiveStmts")
+		e.c13StmtDef(s, sub, "Subscriber.Values", "subscriberValuesStmts")
+		e.c13StmtDef(s, sub, "Subscriber.AddListener", "subscriberAddListenerStmts")
+		e.c13StmtDef(s, res+"discovbuilder.go", "discovBuilder.Build", "discovBuildStmts")
+		// the decision-making conditions on the property's path, translated to Lean Bool functions
+		t := &translator{registry: map[string]*transFunc{}, consts: map[string]string{}}
+		e.c13Cond(t, s, res+"subset.go", "subset", 0, "subsetGuard", "subset: everything is returned")
+		e.c13Cond(t, s, pub, "Publisher.register", 1, "registerGuard", "register: the fixed id is the key suffix")
+		e.c13Cond(t, s, sub, "container.addKv", 0, "addKvDisplaceGuard", "addKv: the keys listed under the value are displaced")
+		e.c13Cond(t, s, sub, "container.addKv", 1, "addKvEarlyGuard", "addKv: result flag")
+		e.c13Rhs(t, s, sub, "container.addKv", "early", "addKvEarly", "addKv: some key carries the value already")
+		e.c13Cond(t, s, sub, "container.doRemoveKey", 2, "doRemoveKeyKeepGuard", "doRemoveKey: other keys still carry the value")
+		e.c13Cond(t, s, sub, "container.doRemoveKey", 1, "doRemoveKeyFilterGuard", "doRemoveKey: a key that stays")
+		e.c13Cond(t, s, reg, "calculateChanges", 0, "calcAddGuard", "calculateChanges: a new or changed key is added")
+		e.c13Cond(t, s, reg, "calculateChanges", 1, "calcRemoveGuard", "calculateChanges: a key that is gone is removed")
+		e.c13Cond(t, s, kube, "diff", 0, "kubeDiffLenGuard", "kube diff: the sizes differ")
+		e.c13Cond(t, s, kube, "EventHandler.OnUpdate", 2, "kubeOnUpdateSkipGuard", "kube OnUpdate: nothing new")
 	})
+}
+
+// c13QuietShape: the skeleton without the logging calls and their argument calls.
+func c13QuietShape(e *emitter, s *source, rel, goName, leanName string) {
+	fd := s.findFunc(rel, goName)
+	if fd == nil {
+		e.errors = append(e.errors, fmt.Sprintf("function %s not found in %s", goName, rel))
+		e.stringList(leanName, "MISSING: "+goName+" in "+rel, []string{"MISSING"})
+		return
+	}
+	var out []string
+	for _, l := range s.shape(fd) {
+		if strings.HasPrefix(l, "call cli.Ctx") || strings.HasPrefix(l, "call err.Error") || strings.HasPrefix(l, "call logc.") {
+			continue
+		}
+		out = append(out, l)
+	}
+	e.stringList(leanName, "skeleton (logging dropped) of `"+goName+"` in "+rel, out)
+}
+
+// c13Conds lists the conditions of the if statements of a function in source order.
+func c13Conds(fd *ast.FuncDecl) []ast.Expr {
+	var out []ast.Expr
+	ast.Inspect(fd.Body, func(n ast.Node) bool {
+		if is, ok := n.(*ast.IfStmt); ok {
+			out = append(out, is.Cond)
+		}
+		return true
+	})
+	return out
+}
+
+// c13Cond translates the n-th if condition of the function into `def leanName … : Bool` (free variables become
+// parameters in the order of their first use; `len(x)` becomes the Int parameter len_x).
+func (e *emitter) c13Cond(t *translator, s *source, rel, goName string, n int, leanName, doc string) {
+	fd := s.findFunc(rel, goName)
+	if fd == nil {
+		e.errors = append(e.errors, fmt.Sprintf("function %s not found in %s", goName, rel))
+		e.printf("/-- MISSING %s -/\ndef %s : Unit := ()\n\n", goName, leanName)
+		return
+	}
+	conds := c13Conds(fd)
+	if n >= len(conds) {
+		e.errors = append(e.errors, fmt.Sprintf("%s in %s has no if #%d", goName, rel, n))
+		e.printf("/-- MISSING if #%d of %s -/\ndef %s : Unit := ()\n\n", n, goName, leanName)
+		return
+	}
+	e.c12Guard(t, s, leanName, doc, nil, conds[n])
+}
+
+// c13Rhs translates the right-hand side of the first `name := expr` of the function.
+func (e *emitter) c13Rhs(t *translator, s *source, rel, goName, name, leanName, doc string) {
+	fd := s.findFunc(rel, goName)
+	var rhs ast.Expr
+	if fd != nil {
+		ast.Inspect(fd.Body, func(n ast.Node) bool {
+			if as, ok := n.(*ast.AssignStmt); ok && rhs == nil && len(as.Lhs) == 1 && len(as.Rhs) == 1 {
+				if id, ok := as.Lhs[0].(*ast.Ident); ok && id.Name == name {
+					rhs = as.Rhs[0]
+				}
+			}
+			return true
+		})
+	}
+	if rhs == nil {
+		e.errors = append(e.errors, fmt.Sprintf("%s: no assignment to %s in %s", goName, name, rel))
+		e.printf("/-- MISSING %s in %s -/\ndef %s : Unit := ()\n\n", name, goName, leanName)
+		return
+	}
+	e.c12Guard(t, s, leanName, doc, nil, rhs)
 }
 
 // c13OptionalShape: the skeleton of a function that only exists in one form of the code (`[]` when absent).
